@@ -36,7 +36,7 @@ STATE_MEASURE = 'distinct (transport kind, sequence of processed line kinds, out
 PROBES = ['cut-inside-line', 'cut-between-cr-and-lf', 'several-lines-one-read',
           'authenticated-tcp', 'authenticated-unix-agree', 'authenticated-unix-error',
           'exhausted-closed', 'junk-closed', 'cookie-auth-completed', 'agree-without-ok',
-          'bytes-after-final-line-same-read']
+          'bytes-after-final-line-same-read', 'keyring-with-other-entries']
 COMPONENTS = {
     'real': ['txdbus.authentication.ClientAuthenticator (pass-through tracing subclass on the '
              'documented IDBusAuthenticator.handleAuthMessage hook)',
@@ -255,6 +255,9 @@ def scenario(ctx):
         ctx.config.update(accept=[a.decode() for a in accept], agree=agree, keyring=kstate)
         server = RefSaslServer(accept, agree_fd=agree, keyring=kr if kstate != 'missing' else None,
                                urandom=lambda n: bytes((i * 37 + 11) & 0xff for i in range(n)))
+        server.messy_keyring = bool(pre.get('messy', ds.flag(0.5)))
+        if server.messy_keyring and b'DBUS_COOKIE_SHA1' in accept:
+            sim.probe('keyring-with-other-entries')
         conn.attach(proto, server)
         sched.run(400)
         ok = sched.drain(200)
